@@ -37,6 +37,14 @@ pub struct SchedCase {
     #[serde(default)]
     pub drop_ring: bool,
     pub tape: Vec<u16>,
+    /// Priority schedule (few preemptions, long runs) instead of the tape.
+    #[serde(default)]
+    pub pct: Option<sched::Pct>,
+    /// Ring built with single_issuer() (and defer_task_run()): only the
+    /// Ring's thread enters the kernel, any thread may still queue
+    /// submissions through a SubmissionQueue.
+    #[serde(default)]
+    pub single_issuer: bool,
 }
 
 type Fut = Pin<Box<a10::fs::Truncate<'static>>>;
@@ -52,6 +60,7 @@ pub fn run(case: &SchedCase, ctx: &mut Ctx) -> Vec<&'static str> {
     let mut classes: Vec<&'static str> = Vec::new();
     let mut cfg = RingCfg::simple(case.sq_log2.min(2));
     cfg.sqpoll = case.sqpoll;
+    cfg.defer_taskrun = case.single_issuer && !case.sqpoll;
     cfg.cq_log2 = Some(6);
     let mut world = match World::new(&cfg) {
         Ok(w) => w,
@@ -140,6 +149,8 @@ pub fn run(case: &SchedCase, ctx: &mut Ctx) -> Vec<&'static str> {
         let drop_ring = case.drop_ring;
         threads.push(Box::new(move || {
             let mut ring = ring_slot.lock().unwrap().take();
+            // The Ring lives on this thread ("built here", K14).
+            sim::bind_submitter_here(ring_fd);
             for _ in 0..polls {
                 if sqpoll {
                     sched::point(sched::Kind::Syscall);
@@ -172,7 +183,15 @@ pub fn run(case: &SchedCase, ctx: &mut Ctx) -> Vec<&'static str> {
             }
         }));
     }
-    let outcome = sched::run(case.tape.clone(), 20_000, false, threads);
+    let outcome = sched::run_either(&case.pct, &case.tape, 20_000, false, threads);
+    // The rest runs on this thread.
+    sim::bind_submitter_here(ring_fd);
+    if case.pct.is_some() {
+        classes.push("pct");
+    }
+    if case.single_issuer && !case.sqpoll {
+        classes.push("single-issuer");
+    }
     world.ring = ring_slot.lock().unwrap().take().map(|r| r.0);
     for f in results.lock().unwrap().drain(..) {
         all.extend(f.0);
